@@ -330,7 +330,11 @@ def invalid_slots(mon, o, states, extra, rec):
                               {'kind': 'group', 'ident': o.ident, 'base': text, 'text': text})
 
 
-def check_group(mon, o, states, extra, rec):
+def _is_null_var(a):
+    return isinstance(a, cat.Arg) and a.kind == 'var' and a.value is None
+
+
+def check_group(mon, o, states, extra, rec, _twin=False):
     results = []
     if o.ident not in mon.seen_invalid and o.single_name:
         mon.seen_invalid.add(o.ident)
@@ -375,6 +379,18 @@ def check_group(mon, o, states, extra, rec):
                               base[2], short(base[4]), text, short(out),
                               [a.label for a in vars_.values()]),
                           {'kind': 'group', 'ident': o.ident, 'base': base[2], 'text': text})
+    # a null argument written as the literal `null` is the same argument as a null coming from data
+    if not _twin and any(_is_null_var(s_[0] if isinstance(s_, tuple) else s_) for s_ in states):
+        twin = [((cat.text('null'), s_[1]) if isinstance(s_, tuple) and _is_null_var(s_[0]) else
+                 cat.text('null') if _is_null_var(s_) else s_) for s_ in states]
+        res2 = check_group(mon, o, twin, extra, rec, _twin=True)
+        if res2:
+            rec.count('spelling.literal-null-twin')
+            if not same(res2[0][4], base[4]):
+                rec.violation('spellings-disagree:%s:literal-null' % o.ident,
+                              '%s gives %s with the null arguments taken from data, but %s (written as literals) gives %s' % (
+                                  base[2], short(base[4]), res2[0][2], short(res2[0][4])),
+                              {'kind': 'group', 'ident': o.ident, 'base': base[2], 'text': res2[0][2]})
     return results
 
 
@@ -497,6 +513,12 @@ def family_groups(mon, rec, rng, count):
     for n in range(count):
         spec = c05.gen_overload(rng, 't', rng.choice(['function', 'function', 'extension']), False, False)
         spec.params = [p for p in spec.params if p.kind != 'kwargs']
+        if n % 4 == 1:
+            # an aggregated, non-nullable parameter type: null (however it is written) is refused in every spelling
+            for prm_ in spec.params:
+                if prm_.kind == 'pos' and not prm_.hidden and not prm_.lazy and not prm_.has_default:
+                    prm_.tname, prm_.nullable = rng.choice(['anyof:str,int', 'anyof:A,tuple']), False
+                    break
         ctx = mon.ctx.create_child_context()
         fn = spec.build()
         try:
@@ -513,6 +535,10 @@ def family_groups(mon, rec, rng, count):
             sp = byname[prm.pyname]
             keys = vals[sp.tname] + (['n'] if sp.nullable else [])
             cat.NAME_OVERRIDES[('f', prm.name)] = [cat.var(cat.Fresh(fam.VALUES[k][1], k)) for k in keys]
+            if not sp.lazy:
+                # null written as a literal and null coming from data are one argument value - whether the parameter
+                # accepts it or not
+                cat.NAME_OVERRIDES[('f', prm.name)] += [cat.text('null'), cat.var(None, label='null-from-data')]
         mon.family_ctx = ctx
         try:
             for states, extra in arg_tuples(o, rng, 4):
